@@ -9,6 +9,15 @@ CHECKS = {
  "C01": ("TLC trace validation (JPart judge, Contract.IsTruePartition) of executions on a TLC-enumerated input scope; L1 machines model-checked",
          "Every partitioner is executed on every input of a TLC-enumerated bounded universe (all bags, all k, all 48 complete-greedy configurations, three presentations) and on seeded families; each recorded call/return is accepted or rejected by TLC against the L0 contract clause. Bounded-exhaustive + sampled, not a proof.",
          "Trusted: TLC/SANY/CommunityModules, Contract.tla, the harness's name<->id mapping; totals < 2^31.", "7 C01"),
+ "C02": ("TLC trace validation (JPart judge, Contract.ValueOfResult = Oracles.Opt computed in TLA+) of executions of every exact partitioner on a TLC-enumerated input scope and seeded families",
+         "dp (5 objectives, all k-parameters), complete greedy (16 switch combinations x 3 objectives), ckk, snp, rnp and sub-sampled ilp are executed on every bag of a TLC-enumerated bounded universe and on seeded random families; TLC recomputes the optimum from the problem definition and accepts or rejects each result. Bounded-exhaustive + sampled, not a proof.",
+         "Trusted: TLC, Oracles.Opt (cross-validated against brute force in each run), harness name<->id mapping; ILP answers rejected once are re-solved with preprocessing off (solver-inconsistency rule of the property).", "7 C02"),
+ "C08": ("TLC trace validation (JPart/JCert judges: integer forms of the published ratio bounds against Oracles.Opt or a TLC-checked certificate) of greedy, kk, multifit, round-robin executions",
+         "Every heuristic is executed on every bag of a TLC-enumerated universe (optimum recomputed in TLA+), on the tight LPT family and on planted perfect partitions with up to hundreds of items whose optimum is certified by TLC; ratio, gap and round-robin shape clauses judged by TLC.",
+         "Trusted: TLC, Oracles.Opt, certificate check in JCert.tla.", "7 C08"),
+ "C12": ("TLC trace validation (JPart judge: cardinality gap and Oracles.OptBalanced over all subsets) of cbldm executions on a TLC-enumerated scope and seeded families",
+         "cbldm is executed on every bag (n<=7/9, values 0..5) under every cardinality bound in {1,2,3,n-1,n,n+3,default} and on all-ones / near-equal / random families up to 12 items; TLC recomputes the constrained optimum by subset enumeration.",
+         "Trusted: TLC, Oracles.OptBalanced.", "7 C12"),
 }
 PENDING = {}
 
